@@ -10,7 +10,8 @@
 (*     around a 416 wrapper)  +  HTTP wrapper around nil                   *)
 (*   x carrier kind x 0..MaxHops hops;                                     *)
 (* plus the status sweep: every status 400..599 as the own status of a     *)
-(* no-code and of a custom-code error.                                     *)
+(* no-code and of a custom-code error; and listings whose backend yields    *)
+(* 1 or 2 items and THEN the error, with page sizes 1, 2 and the default.  *)
 (* A behaviour is one case: Init picks it, each step is one hop.           *)
 (*                                                                         *)
 (* Two modes, both swept inside one TLC run (Init chooses):                *)
@@ -26,7 +27,8 @@ CONSTANTS Modes, MaxHops, Statuses, SweepStatuses, Kinds, Export
 SelfNamed == {"MANIFEST_INVALID", "BLOB_UPLOAD_INVALID"}  \* message text = own code prefix
 MCStdMsg == [c \in StdCodes |-> IF c \in SelfNamed THEN <<C(c)>> ELSE <<M(c)>>]
 
-Codes == StdCodes \cup {"CUSTOM_CODE", "", "-"}          \* "-" : no OCI error at all
+\* "-" : no OCI error at all; the lower/mixed-case codes are custom codes (own status or 500)
+Codes == StdCodes \cup {"CUSTOM_CODE", "", "-", "denied", "Blob_Unknown", "blob_upload_invalid"}
 Shapes == {"plain", "code", "status", "both", "dup", "empty"}
 Wraps == {"bare", "fmt", "fmt0", "http", "fmthttp416", "http404http416"}
 
@@ -68,13 +70,22 @@ SweepDomain == {Http(s, <<Plain(<<B("b1")>>)>>) : s \in SweepStatuses}
                \cup {Http(s, <<New("CUSTOM_CODE", <<B("b1")>>, "none")>>) : s \in SweepStatuses}
 FullDomain == Domain \cup SweepDomain
 
-VARIABLES mode, t0, kind, k, cur
-vars == <<mode, t0, kind, k, cur>>
+\* Listings whose backend iterator yields nitems items and THEN the error (kind "LIST"), with
+\* client page sizes below, at and above nitems (0: the default of 1000), for a few trees.
+ListTrees == {Std(c) : c \in StdCodes} \cup {Plain(<<B("b1")>>), New("CUSTOM_CODE", <<B("b1")>>, "d1"), Http(418, <<Plain(<<B("b1")>>)>>)}
+ListShapes == {<<n, p>> : n \in {1, 2}, p \in {0, 1, 2}}
+EffPage(p) == IF p = 0 THEN 1000 ELSE p
+
+VARIABLES mode, t0, kind, k, cur, nitems, page
+vars == <<mode, t0, kind, k, cur, nitems, page>>
 Impl416 == mode = "impl"
 TrimExact == mode = "design"
 
-Init == mode \in Modes /\ t0 \in FullDomain /\ kind \in Kinds /\ k = 0 /\ cur = t0
-Next == k < MaxHops /\ k' = k + 1 /\ cur' = Hop(cur, kind, TrimExact) /\ UNCHANGED <<mode, t0, kind>>
+Init == /\ mode \in Modes /\ k = 0
+        /\ \/ t0 \in FullDomain /\ kind \in Kinds /\ nitems = 0 /\ page = 0
+           \/ t0 \in ListTrees /\ kind = "LIST" /\ \E sh \in ListShapes : nitems = sh[1] /\ page = sh[2]
+        /\ cur = t0
+Next == k < MaxHops /\ k' = k + 1 /\ cur' = Hop(cur, kind, TrimExact) /\ UNCHANGED <<mode, t0, kind, nitems, page>>
 Spec == Init /\ [][Next]_vars
 
 Is(t) == IsSet(t, Impl416)
@@ -116,6 +127,14 @@ MessageFixedPoint == k >= 1 =>
 FirstHopMessage == (k = 1 /\ Body) =>
   Msg(cur) = <<S(Status(t0)), C(WireCode(t0))>> \o (IF WireMsg(t0, TrimExact) = <<E>> THEN <<>> ELSE WireMsg(t0, TrimExact))
 
+\* a listing that fails after items: the error still arrives at every level (cur is that error and
+\* the laws above hold for it); the items handed over before it never grow and never exceed nitems,
+\* and a page larger than the item count hands over none
+ItemsLaw == LET d(j) == Delivered(nitems, EffPage(page), j) IN
+            /\ d(k) <= nitems
+            /\ k >= 1 => d(k) <= d(k - 1)
+            /\ (k >= 1 /\ EffPage(page) >= nitems) => d(k) = 0
+
 \* ------------------------------------------------------------------- export
-Emit == (Export /\ k = 0) => PrintT(<<"MBT", ToJson([err |-> t0, kind |-> kind, sweep |-> t0 \in SweepDomain])>>)
+Emit == (Export /\ k = 0) => PrintT(<<"MBT", ToJson([err |-> t0, kind |-> kind, sweep |-> t0 \in SweepDomain, nitems |-> nitems, page |-> page])>>)
 =============================================================================
